@@ -5,41 +5,43 @@ namespace Import
 
 def ltB (a b : Block) : Bool := a.number < b.number && a.slot < b.slot && a.hash != b.hash
 
-def goodEvB (c : Cfg) (V : List Block) : Ev → Bool
+def goodEvB (c : Cfg) (lp : Option Nat) (V : List Block) : Ev → Bool
   | .fwd b => V.all (fun x => ltB x b)
-  | .back s => if s = c.fromSlot then V.all (fun x => x.slot ≤ s) else (V.any (fun x => x.slot = s) || V.isEmpty)
+  | .back s => if s = c.fromSlot ∧ lp = none then V.all (fun x => x.slot ≤ s) else (V.any (fun x => x.slot = s) || V.isEmpty)
 
-def goodB (c : Cfg) : List Block → List (Option Ev) → Bool
-  | _, [] => true
-  | V, none :: rs => goodB c V rs
-  | V, some e :: rs => goodEvB c V e && goodB c (applyEv V e) rs
+def goodB (c : Cfg) : Option Nat → List Block → List (Option Ev) → Bool
+  | _, _, [] => true
+  | lp, V, none :: rs => goodB c lp V rs
+  | lp, V, some e :: rs => goodEvB c lp V e && goodB c (lpNext c lp e) (applyEv V e) rs
 
 theorem ltB_iff (a b : Block) : ltB a b = true ↔ Lt a b := by
   simp [ltB, Lt, and_assoc]
 
-theorem goodEvB_iff (c : Cfg) (V : List Block) (e : Ev) : goodEvB c V e = true ↔ GoodEv c V e := by
+theorem goodEvB_iff (c : Cfg) (lp : Option Nat) (V : List Block) (e : Ev) : goodEvB c lp V e = true ↔ GoodEv c lp V e := by
   cases e with
   | fwd b => simp [goodEvB, GoodEv, ltB_iff]
   | back s =>
-    by_cases h : s = c.fromSlot
+    by_cases h : s = c.fromSlot ∧ lp = none
     · simp [goodEvB, GoodEv, h]
-    · simp [goodEvB, GoodEv, h, List.isEmpty_iff]
+    · simp only [goodEvB, GoodEv, if_neg h]
+      simp [List.isEmpty_iff]
 
-theorem goodB_iff (c : Cfg) : ∀ (rs : List (Option Ev)) (V : List Block), goodB c V rs = true ↔ Good c V rs := by
+theorem goodB_iff (c : Cfg) : ∀ (rs : List (Option Ev)) (lp : Option Nat) (V : List Block),
+    goodB c lp V rs = true ↔ Good c lp V rs := by
   intro rs
   induction rs with
-  | nil => intro V; simp [goodB, Good]
+  | nil => intro lp V; simp [goodB, Good]
   | cons r rs ih =>
-    intro V
+    intro lp V
     cases r with
-    | none => simpa [goodB, Good] using ih V
+    | none => simpa [goodB, Good] using ih lp V
     | some e => simp [goodB, Good, goodEvB_iff, ih]
 
 /-- the checker's entry point: a decided-good history is covered by the refinement theorem -/
 theorem import_refines_of_goodB (c : Cfg) (fuel : Nat) (S0 : List Block) (rs : List (Option Ev))
-    (hS : Sorted S0) (hU : ∀ x ∈ S0, x.number ≤ c.untilN) (hG : goodB c S0 rs = true) :
-    ∃ pre, rs = pre ++ (run c fuel S0 rs).2 ∧
-      (run c fuel S0 rs).1 = (applyAll S0 pre).filter (fun x => x.number ≤ c.untilN) :=
-  import_refines c fuel S0 rs hS hU ((goodB_iff c rs S0).mp hG)
+    (hS : Sorted S0) (hU : ∀ x ∈ S0, x.number ≤ c.untilN) (hG : goodB c none S0 rs = true) :
+    ∃ pre, rs = pre ++ (run c fuel none S0 rs).2.1 ∧
+      (run c fuel none S0 rs).1 = (applyAll S0 pre).filter (fun x => x.number ≤ c.untilN) :=
+  import_refines c fuel S0 rs hS hU ((goodB_iff c rs none S0).mp hG)
 
 end Import
